@@ -38,11 +38,15 @@ TERMS = {
     "d": {"t": ("Triangle", [0.0, 0.5, 1.0])},
     "o": {"p": ("Triangle", [0.0, 0.25, 0.5]), "q": ("Triangle", [0.5, 0.75, 1.0])},
     "w": {"p": ("Triangle", [0.0, 0.25, 0.5]), "q": ("Triangle", [0.5, 0.75, 1.0])},
+    "z": {"p": ("Triangle", [0.0, 0.25, 0.5]), "q": ("Triangle", [0.5, 0.75, 1.0])},
 }
 PRELOAD = [("p", 0.25), ("q", 0.5), ("p", 0.5)]
 OUT_AGGREGATION = "AlgebraicSum"
 # a second output variable WITHOUT an aggregation operator (plain sum): its term p is activated to 1.35, above 1
 PRELOAD_W = [("p", 0.75), ("q", 0.5), ("p", 0.6)]
+# a third output variable that is DISABLED while its fuzzy output still holds activated terms (switched off after an
+# inference step): a proposition on it is 0 whatever it holds
+PRELOAD_Z = [("p", 0.75), ("q", 0.5)]
 VOCAB = {v: set(ts) for v, ts in TERMS.items()}
 
 LEAVES5 = [
@@ -71,7 +75,11 @@ def build_engine():
     out = fl.OutputVariable("o", minimum=0.0, maximum=1.0, aggregation=getattr(fl, OUT_AGGREGATION)(),
                             terms=[term(n, s) for n, s in TERMS["o"].items()])
     out_w = fl.OutputVariable("w", minimum=0.0, maximum=1.0, aggregation=None, terms=[term(n, s) for n, s in TERMS["w"].items()])
-    engine = fl.Engine("e", input_variables=[inp("a"), inp("b"), inp("d", enabled=False)], output_variables=[out, out_w],
+    out_z = fl.OutputVariable("z", minimum=0.0, maximum=1.0, aggregation=fl.Maximum(), terms=[term(n, s) for n, s in TERMS["z"].items()])
+    for name, degree in PRELOAD_Z:
+        out_z.fuzzy.terms.append(fl.Activated(out_z.term(name), degree, fl.Minimum()))
+    out_z.enabled = False
+    engine = fl.Engine("e", input_variables=[inp("a"), inp("b"), inp("d", enabled=False)], output_variables=[out, out_w, out_z],
                        rule_blocks=[fl.RuleBlock("rb")])
     for name, degree in PRELOAD:
         out.fuzzy.terms.append(fl.Activated(out.term(name), degree, fl.Minimum()))
@@ -82,8 +90,8 @@ def build_engine():
 
 def leaf_value(p, row) -> float:
     _, var, hedges, term = p
-    if var == "d":
-        return 0.0  # disabled variable
+    if var in ("d", "z"):
+        return 0.0  # disabled variable (input d; output z, whose fuzzy output is not empty)
     if hedges and hedges[-1] == "any":
         return RH.apply_chain(hedges, NAN)
     if var == "o":
@@ -117,6 +125,8 @@ def leaf_forms():
     for c in ((), ("very",), ("somewhat",), ("not",)):  # an aggregated degree above 1 is read as it is (no clipping)
         forms.append(RG.prop("w", c, "p"))
         forms.append(RG.prop("w", c, "q"))
+        forms.append(RG.prop("z", c, "p"))
+        forms.append(RG.prop("z", c, "q"))
     return forms
 
 
